@@ -342,6 +342,59 @@ def unit_bounded_literal_case(eng):
     return dict(unit="bounded-literal-case", func="parser.number (bounded stand-in)", paths=len(spellings), obligations=[ob], wall=0.0)
 
 
+def unit_bounded_grouping(eng):
+    """bounded stand-in: ( ) versus < > versus ^/ / around sub-expressions, nested up to depth 3, in '.word E' and 'mov #E, r0' - every
+    spelling gives the bytes of the ( ) spelling.  Finding D42: an angle bracket written directly next to another one is lexed as a shift."""
+    exprs = set()
+    atoms = ["1", "2", "x"]
+    level = list(atoms)
+    for _ in range(2):
+        nxt = []
+        for a in level[:6]:
+            nxt.append("(%s)" % a)
+            for b in atoms[:2]:
+                for o in ("+", "*", "-"):
+                    nxt.append("(%s%s%s)" % (a, o, b))
+                    nxt.append("%s%s(%s)" % (b, o, a))
+        exprs.update(nxt)
+        level = nxt
+    exprs.update(["((1))", "((1)+2)", "(1+(2))", "((1)+(2))", "(((2)))", "(4)>>1", "1<<(2)", "((4)>>1)", "(1<<(2))", "-(1)", "-((1))", "(-(1))+2"])
+    exprs = sorted(e for e in exprs if len(e) <= 14)
+    cases = []
+    for e in exprs:
+        angle = e.replace("(", "<").replace(")", ">")
+        cases.append((e, angle))
+        if e.count("(") == 1:
+            cases.append((e, e.replace("(", "^/").replace(")", "/")))
+    jobs = []
+    for e, v in cases:
+        jobs.append({"kind": "asm", "sources": ["x = 3\n.word %s\nmov #%s, r0\n" % (e, e)]})
+        jobs.append({"kind": "asm", "sources": ["x = 3\n.word %s\nmov #%s, r0\n" % (v, v)]})
+    res = driver.native(jobs, driver.tree_root(), timeout=900)
+    bad, known = [], []
+    for i, (e, v) in enumerate(cases):
+        ra, rb = res[2 * i], res[2 * i + 1]
+        if ra["status"] != "ok":
+            continue                                  # the reference spelling itself is not a valid program (e.g. division result out of range)
+        if (rb["status"], rb.get("code_hex")) != ("ok", ra.get("code_hex")):
+            adjacent = ("<<" in v and "<<" not in e) or (">>" in v and ">>" not in e) or ">>>" in v or "<<<" in v
+            (known if adjacent and "D42" in common.ACTIVE_FINDINGS else bad).append((e, v, rb["status"], [d[1] for d in rb.get("diags", [])][:1]))
+    status = "failed" if bad else ("known-region" if known else "proved")
+    ob = dict(label="( )-versus-< >-versus-^/ /-grouping-gives-identical-bytes(nested, in .word and in an immediate operand)", kind="bounded", status=status, secs=0.0, path=[], witness=None,
+              detail=str(dict(new=bad[:5], known_D42=known[:3])), events=[], smt2=None, backend="cpython-native", unit="bounded-grouping", func="parser.expression (bounded stand-in)",
+              bound="%d expressions with up to 3 nested groups x 2 operand positions x the angle-bracket (and, for single groups, ^/ /) spelling" % len(exprs), cases=len(cases),
+              cfg=dict(kind="bounded"))
+    return dict(unit="bounded-grouping", func="parser.expression (bounded stand-in)", paths=len(cases), obligations=[ob], wall=0.0)
+
+
+def witness_D42(tree):
+    res = driver.native([{"kind": "asm", "sources": ["mov #((1)), r0\n"]}, {"kind": "asm", "sources": ["mov #<<1>>, r0\n"]}], tree)
+    return (res[0]["status"], res[0].get("code_hex")) != (res[1]["status"], res[1].get("code_hex")), "'mov #((1)), r0' -> %s, 'mov #<<1>>, r0' -> %s" % (res[0]["status"], res[1]["status"])
+
+
+FINDING_WITNESS = {"D42": witness_D42}
+
+
 # ------------------------------------------------------------------ rac: structured respelling
 def gen_pair(rnd):
     """one program in two spellings that must assemble identically"""
@@ -440,6 +493,7 @@ def units(tier):
         us.append(("rm-pct[%s]" % sh, "unit_rm_pct", dict(shape=sh, reg_lazy=False)))
     us.append(("bounded-literal-case", "unit_bounded_literal_case", {}))
     us.append(("text-frame", "unit_text_frame", {}))
+    us.append(("bounded-grouping", "unit_bounded_grouping", {}))
     return us
 
 
